@@ -266,7 +266,16 @@ impl RefVm {
                 let msg = self.pop()?;
                 let pk = self.pop()?;
                 let sig = self.pop()?;
+                // types and the length bound first ("any ... type error ... makes execution fail", "length-bounded ... signature
+                // checking"): whatever the key looks like, an operand of the wrong type or a message over the bound is a failure.
+                // (Until session 4 the reference followed the executor, which answered 0 for an over-long key before it had
+                // looked at the other two operands: DESIGN §7-AJ.)
                 let pk = pk.as_bytes()?;
+                let msg = msg.as_bytes()?;
+                let sig = sig.as_bytes()?;
+                if msg.len() > n as usize {
+                    return None;
+                }
                 if pk.len() > 32 {
                     self.stack.push(b2i(false));
                     return Some(());
@@ -274,11 +283,6 @@ impl RefVm {
                 if pk.len() != 32 {
                     return None;
                 }
-                let msg = msg.as_bytes()?;
-                if msg.len() > n as usize {
-                    return None;
-                }
-                let sig = sig.as_bytes()?;
                 if sig.len() > 64 {
                     self.stack.push(b2i(false));
                     return Some(());
